@@ -66,6 +66,29 @@ DENSE_FAMILIES_QUICK = ("stmts_aug",)
 DENSE_FAMILIES_THOROUGH = ("stmts_aug", "stmts_in_func", "stmts_in_loop", "stmts_calls")
 
 
+# sizes BETWEEN the schedule points for a few cheap chain families (a threshold between 1000 and 3000 is
+# invisible to the quick schedule), and integer literals around the int-to-str digit limit (4300 decimal
+# digits = 3572 hex digits): written in hex in the source, CPython has no limit there
+EXTRA_POINTS = {"binop_left": (1500, 2000, 2500), "calls": (1500, 2000, 2500), "attrs": (1500, 2000, 2500),
+                "subscripts": (1500, 2000, 2500), "boolop": (2000,), "compare_chain": (2000,)}
+HEX_DIGITS = tuple(range(3400, 4500, 60)) + (5000, 8000)
+
+
+def extra_jobs(switches):
+    jobs = []
+    for fam, points in sorted(EXTRA_POINTS.items()):
+        for n in points:
+            for cfg in (("oneliner", "chain_call", "if_expr"), ("oneliner", "list", "if_expr")):
+                if not excluded(fam, n, cfg, switches):
+                    jobs.append((fam, n, cfg, size.FAMILIES[fam](n)))
+    for n in HEX_DIGITS:
+        src = size.FAMILIES["hex_int_literal"](n)
+        for cfg in (("oneliner", "list", "if_expr"), ("oneliner", "chain_call", "short_circuit"), ("ast.unparse", "chain_call", "if_expr")):
+            if not excluded("hex_int_literal", n, cfg, switches):
+                jobs.append(("hex_int_literal", n, cfg, src))
+    return jobs
+
+
 def dense_jobs(quick, switches):
     fams = DENSE_FAMILIES_QUICK if quick else DENSE_FAMILIES_THOROUGH
     top = 560 if quick else 1000
@@ -105,6 +128,8 @@ def excluded(family, n, cfg, switches):
         if family == "nest_def" and big > 40:
             return "ast-unparse-long-chain"
     big = n if isinstance(n, int) else max(n)
+    if "ast-unparse-int-digit-limit" in switches and u == "ast.unparse" and family == "hex_int_literal" and big >= 3500:
+        return "ast-unparse-int-digit-limit"       # 4300 decimal digits are 3572 hex digits
     if "deep-decorator-stack" in switches and family == "decorators" and big > 100:
         return "deep-decorator-stack"
     if "chain-call-many-statements" in switches and w == "chain_call" and big > 1000 and (
@@ -177,7 +202,7 @@ def run(report):
                 report.violations.append(v)
     report.extra["stage_table"] = table
     # dense sweep of block lengths
-    djobs = dense_jobs(quick, switches)
+    djobs = dense_jobs(quick, switches) + extra_jobs(switches)
     nb = env.NPROC * 4
     batches = [djobs[i::nb] for i in range(nb)]
     dres = list(pool.map(lambda b: probe_batch([(j[3], j[2]) for j in b]), batches))
